@@ -101,7 +101,8 @@ static void one_case(long long n, uint64_t seed, const std::string& dir)
 		for (;;) {
 			pollfd p{peer, POLLIN, 0};
 			const int pr = poll(&p, 1, 20);
-			if (pr > 0) { ssize_t k = recv(peer, buf, sizeof buf, 0); if (k <= 0) break; wire.append(buf, (size_t)k); }
+			if (pr > 0) { ssize_t k = recv(peer, buf, sizeof buf, 0); if (k < 0 && (errno == EINTR || errno == EAGAIN)) continue; if (k <= 0) break; wire.append(buf, (size_t)k); }
+			else if (pr < 0 && errno == EINTR) continue;
 			else if (stop_reader.load()) break;
 		}
 	});
